@@ -21,6 +21,8 @@ DigestFails(e) ==
       shouldVerify == signedRight /\ e.verifyhash = own
   IN
   (IF e.verify = "panic" \/ e.sign = "panic" THEN {"panic"} ELSE {})
+  \* (the caller verifies with the very digest variable it signed with, held in a larger buffer: e.digestkept is recorded, the
+  \* requirement is the stated one - both entry points agree)
   \cup (IF signedRight THEN
           (IF e.sign # "ok" THEN {"signing-fails-" \o e.sign} ELSE
            (IF ~e.stdv THEN {"signature-not-valid-for-the-message-under-the-algorithm-hash"} ELSE {})
